@@ -699,3 +699,12 @@ func specEval(n ASTNode, v interface{}) (interface{}, bool) {
 	// function calls and expression references are specified by the function contracts
 	return nil, false
 }
+
+// specPipe2Node builds the AST of "l | r"; specPipe2 evaluates "l | r" (C15 lemmas).
+func specPipe2Node(l ASTNode, r ASTNode) ASTNode {
+	return ASTNode{nodeType: ASTPipe, children: []ASTNode{l, r}}
+}
+
+func specPipe2(l ASTNode, r ASTNode, v interface{}) (interface{}, bool) {
+	return specEval(specPipe2Node(l, r), v)
+}
